@@ -114,11 +114,16 @@ fn decidable(d: &Big, min_e: i32, deg: i32, norms: (f64, f64)) -> bool {
     }
     let log_det = d.log2_abs() + f64::from(min_e) * f64::from(deg);
     let (log_a, log_h) = norms;
-    // absolute dead band: 1e-12 * (1 + ||A||inf), with a 1e6 safety factor
+    // absolute dead band: 1e-12 * (1 + ||A||inf), with a 1e6 safety factor (keeps the
+    // ill-conditioned near-duplicate clusters, where the library's other in-sphere formulations
+    // lose more than the LU bound, out of the judged set)
     let a_inf = if log_a.is_finite() { log_a.exp2() } else { 0.0 };
     let abs_band = log2_f(1e-6 * (1.0 + a_inf));
-    // relative rounding scale: Hadamard * 1e-9
-    let rel_band = log_h + log2_f(1e-9);
+    // relative rounding scale: an a-priori LU bound is ~ n * growth * eps * Hadamard
+    // (<= 7 * 64 * 1.1e-16 = 5e-14 for the largest matrix); 1e-12 leaves a factor 20 on top of
+    // that worst case. (Until round 1 this was 1e-9, which made the oracle abstain from
+    // violations that penetrate a circumsphere by a third of its radius on small-integer input.)
+    let rel_band = log_h + log2_f(1e-12);
     log_det > abs_band && log_det > rel_band
 }
 
